@@ -67,7 +67,7 @@ psf_get_chunk_iterator (SF_PRIVATE * psf, const char * marker_str)
 		} u ;
 
 		u.marker = 0 ;
-		snprintf (u.str, sizeof (u.str), "%s", marker_str) ;
+		snprintf (u.str, sizeof (u.str), "%-4s", marker_str) ;
 
 		marker_len = strlen (marker_str) ;
 		if (marker_len > 64)
@@ -173,7 +173,7 @@ psf_find_read_chunk_str (const READ_CHUNKS * pchk, const char * marker_str)
 	} u ;
 
 	u.marker = 0 ;
-	snprintf (u.str, sizeof (u.str), "%s", marker_str) ;
+	snprintf (u.str, sizeof (u.str), "%-4s", marker_str) ;
 
 	hash = strlen (marker_str) > 4 ? hash_of_str (marker_str) : u.marker ;
 
@@ -213,7 +213,7 @@ psf_store_read_chunk_str (READ_CHUNKS * pchk, const char * marker_str, sf_count_
 
 	memset (&rchunk, 0, sizeof (rchunk)) ;
 	u.marker = 0 ;
-	snprintf (u.str, sizeof (u.str), "%s", marker_str) ;
+	snprintf (u.str, sizeof (u.str), "%-4s", marker_str) ;
 
 	marker_len = strlen (marker_str) ;
 
@@ -263,7 +263,7 @@ psf_save_write_chunk (WRITE_CHUNKS * pchk, const SF_CHUNK_INFO * chunk_info)
 	while (len & 3) len ++ ;
 
 	u.marker = 0 ;
-	snprintf (u.str, sizeof (u.str), "%.4s", chunk_info->id) ;
+	snprintf (u.str, sizeof (u.str), "%-4.4s", chunk_info->id) ;
 
 	pchk->chunks [pchk->used].hash = strlen (chunk_info->id) > 4 ? hash_of_str (chunk_info->id) : u.marker ;
 	pchk->chunks [pchk->used].mark32 = u.marker ;
